@@ -913,7 +913,16 @@ fn exec_c11(t: &C11Trace, out: &mut Outcome<C11Trace>) {
         min_ok: &min_ok,
     };
     crate::supervisor::set_ctx([3, 0, 0, BIG as u64]);
-    let (measured, _) = arena::with_arena(|a| a.with_buf(BIG, t.place, |buf| read_chain(&measure, buf, out), |_| None));
+    let (mut measured, _) = arena::with_arena(|a| a.with_buf(BIG, t.place, |buf| read_chain(&measure, buf, out), |_| None));
+    #[allow(non_snake_case)]
+    let mut BIG = BIG;
+    if matches!(&measured, Err(fl) if fl.clause == "same-value-as-slice-path") && BIG < arena::RW - 16 {
+        // perhaps this implementation legitimately wants more scratch than the stream has bytes
+        // (padded or aligned slots): measure once more with everything the arena has
+        BIG = arena::RW - 16;
+        min_ok.borrow_mut().clear();
+        measured = arena::with_arena(|a| a.with_buf(BIG, t.place, |buf| read_chain(&measure, buf, out), |_| None)).0;
+    }
     let measured = match measured {
         Ok(m) => m,
         Err(fl) => report!(
